@@ -10,7 +10,7 @@ from typing import TYPE_CHECKING, Any
 
 from .context import SqlContext
 from .enums import SqlTypes
-from .terms import AggregateFunction, Function, Star, Term
+from .terms import AggregateFunction, Function, Node, Star, Term
 from .utils import builder
 
 if TYPE_CHECKING:
@@ -296,6 +296,11 @@ class Extract(Function):
     def __init__(self, date_part: Any, field: Term, alias: str | None = None) -> None:
         super().__init__("EXTRACT", date_part, alias=alias)
         self.field = field
+
+    def nodes_(self):  # type:ignore[no-untyped-def]
+        yield from super().nodes_()
+        if isinstance(self.field, Node):
+            yield from self.field.nodes_()
 
     def get_special_params_sql(self, ctx: SqlContext) -> str:
         return "FROM {field}".format(field=self.field.get_sql(ctx.copy(with_alias=False)))
